@@ -26,6 +26,23 @@ def cleanSList (multi : Nat → Field → Text → Nat → Text → Bool)
 end
 
 mutual
+/-- `emptyOk` of every tree that `simplify` hands to `normalize` (cf. `cleanS`). -/
+def emptyOkS (multi : Nat → Field → Text → Nat → Text → Bool)
+    (bracket : Text → Option ((Nat → Bool) × Nat)) (rd : Reader) : Q → Bool
+  | .comp k qs b =>
+    emptyOkSList multi bracket rd qs &&
+      (qs.isEmpty || emptyOk (.comp k (simplifyList multi bracket rd qs) b))
+  | .bin k a b =>
+    emptyOkS multi bracket rd a && emptyOkS multi bracket rd b &&
+      emptyOk (.bin k (simplify multi bracket rd a) (simplify multi bracket rd b))
+  | _ => true
+def emptyOkSList (multi : Nat → Field → Text → Nat → Text → Bool)
+    (bracket : Text → Option ((Nat → Bool) × Nat)) (rd : Reader) : List Q → Bool
+  | [] => true
+  | q :: qs => emptyOkS multi bracket rd q && emptyOkSList multi bracket rd qs
+end
+
+mutual
 def defectsS (multi : Nat → Field → Text → Nat → Text → Bool)
     (bracket : Text → Option ((Nat → Bool) × Nat)) (rd : Reader) : Q → List String
   | .comp k qs b =>
